@@ -4,7 +4,7 @@ spec/ref/MdGridRef.tla     reference container state, reference effect of every 
                            C24 clauses as predicates over (reference state, what the public API answered);
 spec/sys/MdGrid.tla        mechanism of pp.MixedDimensionalGrid (the five dictionaries, argsort_grids, sub-steps of every
                            mutator in the code's order); TLC checks exhaustively that the mechanism's answers satisfy
-                           every clause (Design) and that the two modelled defects break it (vacuity);
+                           every clause (Design) and that the mechanisms before fixes 5d1eabcd5 / 3b4bfadde break it (vacuity);
 spec/trace/M_MdGrid.tla    verdict: TLC model-checks the clauses on the transition graphs recorded from the REAL class;
 spec/trace/T_MdGrid.tla    conformance: every recorded transition is a step of sys/MdGrid (-> drift).
 
@@ -30,7 +30,7 @@ STATE_CLAUSES = ["ListingSorted", "InterfaceListing", "PairRoundTrip", "OneBound
 CLAUSES = ["Accepted", "RemoveExact"] + STATE_CLAUSES
 MAX_REPORTED = 12
 # calls that the container must reject (re-adding a present subdomain / interface, co-dimension 3) are part of the
-# histories: the reference says they leave the container unchanged
+# histories: the reference says they leave the container unchanged (repaired for co-dimension 3 by 3b4bfadde)
 INCLUDE_REJECTED_CALLS = True
 # replacing the 2-d host along a fracture that carries an intersection is not supported by
 # match_grids_along_1d_mortar (ValueError from the mortar update, also for an identical copy): outside the family
@@ -600,13 +600,3 @@ def replay(ctx, body):
     ctx.case(key="replay", n=len(edges))
     ctx.sample(rec["events"])
     report(ctx, [g], mon.records)
-
-
-# ===================================================================== known-finding matchers
-def _codim3_add(rec):
-    """the history contains add_interface between subdomains three dimensions apart (rejected with ValueError, but the
-    interface's data dictionary is stored before the check)"""
-    return any(e.get("ev") == "addintf" and e.get("codim", 0) >= 3 for e in rec.get("events", []))
-
-
-MATCHERS = {"c24_add_interface_codim3_not_atomic": _codim3_add}
